@@ -375,8 +375,11 @@ def lean_obligations(ctx):
         build_ok = p.returncode == 0
         if not build_ok:
             errs = [l for l in (p.stdout + p.stderr).split("\n") if "error" in l][:12]
-            failures.append(Failure("obligation", "lake build failed", key="lake-build",
-                                    detail={"errors": errs, "tail": (p.stdout + p.stderr)[-3000:]}))
+            broken = broken_declarations(errs)
+            failures.append(Failure("obligation", "lake build failed: proof obligations that no longer check: %s" %
+                                    (", ".join(broken) if broken else "(see errors)"), key="lake-build",
+                                    detail={"unchecked_declarations": broken, "errors": errs,
+                                            "tail": (p.stdout + p.stderr)[-3000:]}))
         # axiom audit
         audited = {}
         if build_ok and prop.theorems:
@@ -422,6 +425,29 @@ def lean_obligations(ctx):
     n_obl = len(prop.theorems) + 2  # each theorem's axiom audit (+ existence) + build + forbidden-construct grep
     n_bad = len({f.key for f in failures})
     return n_obl, max(0, n_obl - n_bad), failures, info
+
+
+def broken_declarations(err_lines):
+    """Map 'error: File.lean:LINE:COL' to the enclosing theorem / lemma / def name in that file."""
+    out = []
+    for l in err_lines:
+        m = re.search(r"error: ([\w/.]+\.lean):(\d+):\d+", l)
+        if not m:
+            continue
+        path = os.path.join(LEAN, m.group(1))
+        try:
+            src = open(path).read().split("\n")
+        except OSError:
+            continue
+        ns = ""
+        name = None
+        for i in range(min(int(m.group(2)), len(src)) - 1, -1, -1):
+            mm = re.match(r"\s*(?:private |protected |noncomputable |@\[[^\]]*\]\s*)*(theorem|lemma|def|instance|example)\s+([\w.'«»]+)?", src[i])
+            if mm:
+                name = "%s %s (%s:%s)" % (mm.group(1), mm.group(2) or "", m.group(1), m.group(2)); break
+        if name and name not in out:
+            out.append(name)
+    return out
 
 
 def parse_axioms(txt):
